@@ -54,8 +54,7 @@ def perms(dims, limit=None):
 def generate(tier, rng):
     fams = []
     unis = [mk_universe((2, 2, 3), "abc"), mk_universe((2, 2, 2), "abc")]
-    if tier == "thorough":
-        unis.append(mk_universe((2, 2, 2, 2), "abcd"))
+    unis.append(mk_universe((2, 2, 2, 2), "abcd"))      # rank 4: all 24 storage orders; few keys in the quick tier
     k = 0
     for ui, uni in enumerate(unis):
         L = list(uni.keys())
@@ -112,7 +111,8 @@ def generate(tier, rng):
                 continue
             nx = nelem(uni, xs)
             x0 = dict(dims=xs, values=[(i + 1) * (-1) ** (i % 4 == 2) for i in range(nx)])
-            for key in c06.gen_keys(rng, uni, xs, k, with_lists=False)[:: (1 if ui == 0 else 3)]:
+            stride = (1 if ui == 0 else 3) if (len(L) < 4 or tier == "thorough") else 17
+            for key in c06.gen_keys(rng, uni, xs, k, with_lists=False)[::stride]:
                 k += 1
                 u2 = c06._with_sub(uni, key)
                 vs = [dict(stream="exact", uni=u2, arr=permute_desc(u2, x0, p), steps=[dict(op="get", key=key)]) for p in perms(xs)]
